@@ -94,6 +94,13 @@ static void h16_body(int t) { static const char *const a[3] = { "u@mail.test.", 
 static void h17_prep(void) { obj_setup(0, 3, 1); obj_setup(1, 3, 0); obj_setup(2, 3, 1); }
 static void h17_body(int t) { static const char *const a[3] = { "\"a b\"@x.ac", "\"x  \"@y.ad", "\"q\tr s\".\xd0\xb6@z.ae" }; do_email(t, a[t]); do_email(t, a[t]); }
 
+/* W18 (write-set oracle and ThreadSanitizer pass only: a table miss walks all 1591 rows, ~5000 scheduling points per thread - the interleaving
+ * space of two such walks is beyond the explorer, and nothing is shared unless the write sets say so): UNLISTED last labels written in capitals, through is_tld and through the ASCII modes, from a cold start (a fall-back taken only after a
+ * table miss - another comparison, a locale probe, a memo of "not found" - is reached by no listed name); every capital letter occurs */
+static void h18_prep(void) { obj_setup(0, 0, 1); obj_setup(1, 1, 1); obj_setup(2, 2, 1); }
+static void h18_body(int t) { static const char *const d[3] = { "ABCDEFGHIQ", "JKLMNOPQRI", "STUVWXYZIQ" }; static const char *const a[3] = { "u@host.ZZI", "u@mail.QIQJ", "u@a.b.IIIIQ" };
+    int r = is_tld(d[t], d[t] + strlen(d[t])); logf_(t, "[tld(%s)=%d]", d[t], r); do_email(t, a[t]); do_email(t, a[t]); }
+
 static harness_t H[] = {
     { "H1-two-6531-idn-validations", 2, h1_prep, h1_body, free_objs },
     { "H2-6531-vs-822", 2, h2_prep, h2_body, free_objs },
@@ -112,6 +119,7 @@ static harness_t H[] = {
     { "H15-literals-with-zero-first-octet", 2, h15_prep, h15_body, free_objs },
     { "H16-rooted-names-different-last-labels", 2, h16_prep, h16_body, free_objs },
     { "H17-quoted-white-space-in-6531", 2, h17_prep, h17_body, free_objs },
+    { "W18-unlisted-capital-tlds-cold-start(write-sets+TSan-only)", 2, h18_prep, h18_body, free_objs },
     { "T1-three-threads-reserved-names", 3, h3_prep, h3_body, NULL },
     { "T2-three-threads-is_tld", 3, h3_prep, h4_body, NULL },
     { "T3-three-threads-6531-822-5322", 3, h2_prep, h2_body, free_objs },
